@@ -3,7 +3,7 @@
    Grids are arbitrary non-decreasing lists of reals ([nondec]); functions are
    lists of values on the grid. *)
 From Coq Require Import List Reals QArith.
-From FDAV Require Import Base.Num Base.Vec Base.Quad Lemmas.Vec Lemmas.Quad Lemmas.Gram.
+From FDAV Require Import Base.Num Base.Vec Base.Quad Model.Simpson Lemmas.Vec Lemmas.Quad Lemmas.Gram Lemmas.Simpson.
 Import ListNotations.
 Local Open Scope R_scope.
 
@@ -117,4 +117,28 @@ Local Open Scope Q_scope.
 Example C08_example :
   (trapz opsQ [0; 1#2; 2; 3] [1; 2; 0; 4] == dot opsQ (trapz_w opsQ [0; 1#2; 2; 3]) [1; 2; 0; 4])
   /\ trapz_w opsQ [0; 1#2; 2; 3] = [1#4; 1; 5#4; 1#2].
+Proof. split; vm_compute; reflexivity. Qed.
+
+(* ---- Simpson's rule (Model/Simpson.v = scipy.integrate.simpson with explicit sample points, as FDApy
+   calls it; tied to the implementation by the correspondence check): linear, exact for every quadratic
+   on every strictly increasing grid with at least three points (odd or even number of points, any
+   spacings), and factorising over product grids ---- *)
+Theorem C08_simpson_add : forall x y z, length y = length x -> length z = length x ->
+  (simpson opsR x (vadd opsR y z) = simpson opsR x y + simpson opsR x z)%R.
+Proof. exact simpson_vadd. Qed.
+Print Assumptions C08_simpson_add.
+Theorem C08_simpson_scale : forall c x y, length y = length x ->
+  (simpson opsR x (vscale opsR c y) = c * simpson opsR x y)%R.
+Proof. exact simpson_vscale. Qed.
+Print Assumptions C08_simpson_scale.
+Theorem C08_simpson_exact_quadratic : forall a b c x0 r, incr (x0 :: r) -> (2 <= length r)%nat ->
+  (simpson opsR (x0 :: r) (map (P2 a b c) (x0 :: r)) = F2 a b c (lastS r x0) - F2 a b c x0)%R.
+Proof. exact simpson_exact_quadratic. Qed.
+Print Assumptions C08_simpson_exact_quadratic.
+Theorem C08_simpson_product_grid : forall x1 x2 f g, length f = length x1 -> length g = length x2 ->
+  (simpson2 opsR x1 x2 (outer opsR f g) = simpson opsR x1 f * simpson opsR x2 g)%R.
+Proof. exact simpson_product_grid. Qed.
+Print Assumptions C08_simpson_product_grid.
+Example C08_simpson_example :
+  simpson opsQ [0; 1; 3; 4]%Q [1; 2; 10; 17]%Q == (76 # 3)%Q /\ simpson opsQ [0; 1; 3]%Q [1; 2; 10]%Q == 12%Q.
 Proof. split; vm_compute; reflexivity. Qed.
